@@ -94,7 +94,6 @@ class PopulatorAdapter:
         self.desper = desper
         self.roots = roots
         self.orders = set()
-        self.raw_same = self.raw_diff = 0
 
     # ------------------------------------------------------------------------------------------
     def reset(self, init):
@@ -167,7 +166,8 @@ class PopulatorAdapter:
         self._walk(self.map, (), cols, maps, raw)
         self.raw = raw
         get = {}
-        for k in sorted(candidate_keys(sc) | set(cols)):
+        self._get_keys = candidate_keys(sc) | set(cols)
+        for k in self._get_keys:
             h = self.map.get(path_str(k))
             via_get = getattr(h, 'tag', None if h is None else 'MAP' if isinstance(h, self.desper.ResourceMap) else 'ALIEN')
             try:
@@ -191,27 +191,22 @@ class PopulatorAdapter:
 
     def expect(self, name, args, pre, post):
         cols = columns_of(post['layers'])
-        top = {k: (cols[k][0] if k in cols else None) for k in candidate_keys(self.sc) | set(cols) | set(self.raw and
-               {k for k in self._observed_keys()})}
         between = MapsBetween(post['reqMaps'], post['okMaps'])
-        self._model_raw = post['layers']
+        self._model_layers = post['layers']
         return {
             'exc': post['exc'],
             'columns': cols,
-            'get': {k: (v, v) for k, v in top.items()},
+            'get': {k: (cols[k][0], cols[k][0]) if k in cols else (None, None) for k in self._get_keys | set(cols)},
             'maps': between,
             'maps_by_get': between,
             'made': tuple(sorted((m['r'], m['p'], m['f'], m['a']) for m in post['made'])),
         }
-
-    def _observed_keys(self):
-        return [m + (tuple(k.split('.')),) for m, layers in self.raw.items() for layer in layers for k, _t in layer]
 
     def finish(self, stats):
         s = stats.extra.setdefault('clash_orders_realised', set())
         s |= self.orders
         # evidence only: how often the real layer split equals the model's (it depends on glob order)
         model = {tuple(m): tuple(frozenset((name_str(k), (h['c'], h['r'], h['p'])) for k, h in fmap(layer).items())
-                                  for layer in ls) for m, ls in fmap(self._model_raw).items()}
-        key = 'raw_layers_equal_model' if model == {m: v for m, v in self.raw.items() if m in model} else 'raw_layers_differ_from_model'
+                                  for layer in ls) for m, ls in fmap(self._model_layers).items()}
+        key = 'raw_layers_equal_model' if model == self.raw else 'raw_layers_differ_from_model'
         stats.extra[key] = stats.extra.get(key, 0) + 1
